@@ -115,6 +115,62 @@ def _run(ctx, scn, nseeds, nsim, sysmb=False, mc=True, mc_timeout=3000, tsos=(0,
     return comp, sc
 
 
+# ---------------------------------------------------------------------------------------------------------------- directed schedules (spec -> code)
+BP_TARGETS = {
+    # a thread's automatic registration inside the SECOND wait phase of a running grace period (registry lock dropped between two polls, the
+    # first reader still inside its section): the thread is appended to `registry` while the scan works on cur_snap_readers
+    "reg_in_phase2": ('pc["r2"] = "g_unl" /\\ pc["u1"] \\in {"w_wait", "w_lock"} /\\ ph["u1"] = 2 /\\ i["u1"] = 2 /\\ cs["r1"] # 0', "bp_regmid"),
+}
+
+
+def _directed(ctx, target, nruns, sysmb=False, tso=1):
+    """TLC: shortest behaviour of the scenario's UrcuBp instance that reaches BP_TARGETS[target]; the real urcu-bp.c is forced along it (VRT_SCHED),
+    each run is completed by a seeded scheduler, every oracle runs and every trace is validated against the specification."""
+    import re
+    import gp_sched as G
+    pred, scn = BP_TARGETS[target]
+    sc = load_scenario(scn); comp = bp_component(sc, sysmb=sysmb)
+    if len(ctx.violations) >= conc.MAXV:
+        return
+    c = conc.consts_for(comp, sc, tso, True)
+    mod = gen_mc(sc, "reach_%s_%s_%d" % (comp["variant"], target, tso), c, extra_defs="Target == %s\nNotReached == ~Target\n" % pred,
+                 cfg_lines=["SPECIFICATION " + comp.get("mc_spec", "Spec"), "INVARIANT NotReached", "CONSTRAINT SBBound", "CHECK_DEADLOCK FALSE"])
+    r = run_tlc(mod, timeout=1800, workers=8)
+    ctx.states += r.distinct; ctx.transitions += r.states
+    if r.violation != "invariant NotReached":
+        raise RuntimeError("UrcuBp: target %s is not reachable in scenario %s (%s)\n%s" % (target, scn, r.error or r.violation, r.out[-800:]))
+    sched = G.schedule_from_trace(r.out)
+    wd = os.path.join(ctx.outdir, "work_dir"); shutil.rmtree(wd, ignore_errors=True); os.makedirs(wd)
+    exe = _exe(ctx, comp)
+    pf = conc.program_file(comp, sc, os.path.join(wd, "prog_%s.txt" % sc["name"]))
+    runs = []; fails = []; followed = 0
+    for j in range(nruns):
+        sp = os.path.join(wd, "sched.txt")
+        open(sp, "w").write("#auto-benign\n" + "\n".join(sched + ["X:seeded"]) + "\n")
+        seed = ctx.seed * 1009 + j
+        tp = os.path.join(wd, "d_%s_%d_%d.ndjson" % (scn, tso, j))
+        env = {"VRT_MODE": "uniform" if j % 2 == 0 else "pct", "VRT_DEPTH": 1 + j % 3, "VRT_LEN": comp.get("pct_len", 120)}; env.update(comp.get("env", {})); env["VRT_SCHED"] = sp
+        rc, so, se = run_driver(exe, [seed, tso, tp, pf], env=env, timeout=30)
+        raw = open(tp, errors="replace").read() if os.path.exists(tp) else ""
+        m = re.search(r'"replay_diverged","at":\d+,"agent":"([^"]*)"', raw)
+        if m and m.group(1) == "X:seeded":
+            followed += 1
+        if rc != 0:
+            env.pop("VRT_SCHED")
+            fails.append({"kind": "directed", "seed": seed, "tso": tso, "rc": rc, "stderr": se[-500:], "trace": tp, "env": env, "scenario": scn, "target": target, "schedule": sched + ["X:seeded"]})
+        else:
+            runs.append((j, read_trace(tp))); os.unlink(tp)
+    ctx.extra.setdefault("directed_targets_reached_in_the_real_code", {})["%s/%s/%s" % (scn, comp["name"], target)] = "forced prefix (%d events) followed to its end in %d of %d runs" % (len(sched), followed, nruns)
+    conc.report_failures(ctx, comp, fails)
+    n0 = ctx.traces
+    conc.validate(ctx, comp, sc, tso, runs, wd, "tvd_%s_%s_%d" % (scn, comp["name"], tso))
+    ctx.replays += ctx.traces - n0
+    log("  [directed] %s %s target %s: %d forced runs (%d followed the whole prefix), violations %d" % (scn, comp["name"], target, nruns, followed, len(ctx.violations)))
+    shutil.rmtree(wd, ignore_errors=True)
+    if followed == 0 and not fails and not ctx.violations:
+        raise RuntimeError("directed schedule for %s could not be followed by the real code although no check failed" % target)
+
+
 def _liveness(ctx, scn, sysmb=False, timeout=3000):
     """FairSpec => Termination (every synchronize_rcu returns, every thread exits); no state constraint."""
     sc = load_scenario(scn)
@@ -222,6 +278,9 @@ def run_c01(ctx):
     _run(ctx, "bp_1r1u", n, sim, sim_tsos=(1,) if q else (0, 1))
     _run(ctx, "bp_nest", n, 0 if q else sim, tsos=T)
     _run(ctx, "bp_1r1u", n, 0 if q else sim, sysmb=True, tsos=T)
+    # registration in the middle of a grace period, then a second grace period: executions validated in the quick tier, explored by TLC in the thorough tier
+    _run(ctx, "bp_regmid", 20 if q else n, 0 if q else sim, mc=not q, mc_timeout=6000)
+    _directed(ctx, "reg_in_phase2", 10 if q else 200)
     if not q:
         _run(ctx, "bp_nest", n, sim, sysmb=True)
         _run(ctx, "bp_2r", n, sim)
@@ -256,6 +315,8 @@ def run_c15(ctx):
     # "signals cannot interrupt registration": the handler (with its own read-side section) delivered at every scheduling point of a thread's
     # first rcu_read_lock(), i.e. also between the TLS test and the signal mask (the model side of this scenario is checked in C19)
     _sigat_sweep(ctx, "bp_sig", "r1", 34 if q else 40, 1 if q else 5)
+    # registration inside the second wait phase of a running grace period (directed schedule from TLC), then another grace period
+    _directed(ctx, "reg_in_phase2", 8 if q else 100)
     if not q:
         _run(ctx, "bp_exit", n, sim)
         _run(ctx, "bp_2r", n, sim)
